@@ -231,22 +231,42 @@ def execute(plan):
             return {"violation": None, "digest": log.digest(), "steps": steps,
                     "counters": counters, "cov": [], "nontrivial": False}
         X, P, Bp = (np.asarray(v) for v in out.value)
-        # ---- trajectory: x1 p1 x2 p2 ... x_final [P_full] ------------------------------
+        # ---- trajectory ---------------------------------------------------------------------
+        # Solves are classified by what they optimise, not by their position, so a refactor
+        # that solves more or fewer sub-problems is not flagged: an X-step has one
+        # (layers x sources) variable, a P-step one (rows x layers) variable.  Consecutive
+        # steps are comparable when they work on the same sample set, i.e. the P-steps with
+        # the row count of the first P-step (the sub-sample); a P-step on another row count
+        # (full-data refit after sub-sampling) is left out of the chain.
         ev = list(seam.events)
-        tail = 2 if plan["subsample"] else 1
-        loop = ev[:len(ev) - tail]
-        if len(loop) % 2 != 0 or len(ev) < 3:
-            raise Violation(ID, "unexpected_solve_sequence",
-                            f"{len(ev)} solves do not form x/p pairs + final refit", n=len(ev))
-        iters_run = len(loop) // 2
-        vals = [e.value for e in loop] + [ev[len(loop)].value]   # ... + final X refit
+
+        def kind_of(e):
+            if len(e.var_shapes) != 1:
+                return None
+            sh = tuple(e.var_shapes[0])
+            if sh == (n_layers, n_src):
+                return "X"
+            if len(sh) == 2 and sh[1] == n_layers:
+                return "P"
+            return None
+
+        kinds_ = [kind_of(e) for e in ev]
+        rows0 = next((e.var_shapes[0][0] for e, k in zip(ev, kinds_) if k == "P"), None)
+        ambiguous = (n_layers == n_src) and rows0 == n_layers
+        chain = [(k, e.value) for e, k in zip(ev, kinds_)
+                 if e.value is not None and (k == "X" or (k == "P" and e.var_shapes[0][0] == rows0))]
+        if ambiguous or len(chain) < 2:
+            bump("trajectory_not_classified")
+            chain = []
+        iters_run = sum(1 for k, _ in chain if k == "P")
+        vals = [v for _, v in chain]
         for k in range(1, len(vals)):
             rise = vals[k] - vals[k - 1]
             worst_rise = max(worst_rise, rise / (1 + vals[k - 1]))
             if rise > eps_d * (1 + vals[k - 1]):
                 raise Violation(
                     ID, "fit_error_increased",
-                    f"alternating step {k} ({'P' if k % 2 else 'X'}-step) raised the fitting error "
+                    f"alternating step {k} ({chain[k][0]}-step) raised the fitting error "
                     f"from {vals[k - 1]:.6g} to {vals[k]:.6g} (solver {plan['solver']})",
                     step=k, before=vals[k - 1], after=vals[k])
         # ---- post-conditions ------------------------------------------------------------
